@@ -330,6 +330,53 @@ func init() {
 			e.callValue(c.st, fv, nil, func(*State, Value) {})
 			return false
 		},
+		// vClockSet(ns): start the virtual clock at a concrete instant (discrete-event harnesses)
+		"vClockSet": func(e *Engine, c *callCtx) bool {
+			c.st.clock = c.args[0].(IntV)
+			return true
+		},
+		// vFireEarliest(): discrete-event step - advance the clock to the earliest deadline among the armed timers
+		// and fire that timer; returns the deadline (ns), or -1 if no timer is armed. All deadlines must be concrete.
+		"vFireEarliest": func(e *Engine, c *callCtx) bool {
+			best, bestID := int64(-1), 0
+			for _, id := range c.st.timers {
+				o := c.st.obj(id)
+				if o.tm == nil || !o.tm.armed {
+					continue
+				}
+				d, ok := constInt(o.tm.deadline.t)
+				if !ok {
+					panic(hardErr("vFireEarliest: a timer deadline is not a constant (use vClockSet and concrete durations)"))
+				}
+				if best < 0 || d < best {
+					best, bestID = d, id
+				}
+			}
+			if bestID == 0 {
+				c.set(e.cint(-1, 64, true))
+				return true
+			}
+			if now, ok := constInt(e.now(c.st).t); ok && best > now {
+				c.st.clock = e.cint(best, 64, true)
+			}
+			c.set(e.cint(best, 64, true))
+			o := c.st.mut(bestID)
+			o.tm.armed, o.tm.fired = false, true
+			if o.tm.hasChan {
+				ch := c.st.mut(o.fields[0].(ChanV).obj)
+				if len(ch.ch.buf) < ch.ch.cap {
+					ch.ch.buf = append(ch.ch.buf, TimeV{ns: e.now(c.st)})
+				}
+				e.wakeSelectors(c.st, o.fields[0].(ChanV).obj)
+				return true
+			}
+			fv, _ := o.tm.fn.(FuncV)
+			if fv.fn == nil {
+				return true
+			}
+			e.callValue(c.st, fv, nil, func(*State, Value) {})
+			return false
+		},
 		"vHeld": func(e *Engine, c *callCtx) bool {
 			iv := c.args[0].(IfaceV)
 			p := iv.val.(PtrV)
